@@ -707,6 +707,26 @@ def finish_tally(ctx, t):
         ctx.report(blob, what, finding=finding)
     for _, smp in sorted(t.samples, key=lambda x: x[0])[:6]:
         ctx.sample(smp)
+    # hand-built idioms with symbolic dims that SymShape.tla's menus do not derive (ScatterND over a Range of a sliced
+    # Shape, Reshape with a run-time target whose output is annotated with a static 0 dim): one optimize(), several
+    # concrete bindings per model (shared with C03/C04: optgen.family_models, names sym_*)
+    from . import optgen
+
+    for fam, res in optgen.direction_family(ctx, want_abs=False):
+        name = fam[0]
+        if not name.startswith("sym_"):
+            continue
+        if res is core.HANG or isinstance(res, core.MachineryErrorResult) or res.get("skip"):
+            raise core.MachineryError(f"family {name}: {res if not isinstance(res, dict) else res['skip']}")
+        for v in res["variants"]:
+            ctx.add("evaluations")
+            ctx.add("symbolic_family_runs")
+            if v["exc"]:
+                continue   # totality is C04's
+            for k, symptom, detail in v["fail"]:
+                ctx.report({"kind": "family", "name": name, "variant": v["name"], "binding": k, "symptom": symptom, "detail": detail},
+                           f"symbolic-shape family {name}, {v['name']}: binding #{k}: {symptom}: {detail}")
+                break
     ctx.set("distinct_nontrivial", len(t.nontriv))
     ctx.set("rule", "models = 'done' states of SymShape.tla (exhaustive cfgs + seeded simulation), each optimized ONCE (twice when the "
                     "annotated form is also run) and run at every binding of its free dims to {0,1,2,3,7}; evaluations = (model, binding) "
